@@ -1,7 +1,7 @@
 #!/bin/bash
 # ingest_seed.sh <id> <i> <pkgdir> : confirm seed i of /tmp/seed/<id> and store it under /verif/seeded/<id>-<i>/
-id="$1"; i="$2"; pkg="$3"
-out=$(/verif/tools/confirm_seed.sh /tmp/seed/$id $i $pkg TestSeedDemo 2>&1)
+id="$1"; i="$2"; pkg="$3"; re="${4:-TestSeedDemo}"
+out=$(/verif/tools/confirm_seed.sh /tmp/seed/$id $i $pkg "$re" 2>&1)
 echo "$out" | tail -4
 if echo "$out" | grep -q '^CONFIRMED'; then
   d=/verif/seeded/$id-$i; mkdir -p $d; cp -r /tmp/seed/$id/OUT/$i/* $d/
